@@ -314,12 +314,14 @@ func (b *Balloon) QueryDigestMembershipConsistency(keyDigest hashing.Digest, ver
 		return nil, fmt.Errorf("invalid key digest: length is %d bytes, should be %d", len(keyDigest), proof.Hasher.Len()/8)
 	}
 	proof.KeyDigest = keyDigest
-	proof.QueryVersion = version
 	proof.CurrentVersion = b.version - 1
 
 	if version > proof.CurrentVersion {
 		version = proof.CurrentVersion
 	}
+	// the answer names the version it is computed for: a verifier replays the
+	// history proof, and fetches the snapshot, for QueryVersion
+	proof.QueryVersion = version
 
 	proof.HyperProof, err = b.hyperTree.QueryMembership(keyDigest)
 	if err != nil {
